@@ -130,6 +130,8 @@ THEORY = [
     ('tel_head', '&tel { a }.', 'accept'), ('tel_head_body', '&tel { a | > b } :- q.', 'accept'),
     ('tel_head_past_op', '&tel { < a }.', 'reject'), ('tel_head_since', '&tel { a <? b }.', 'reject'), ('tel_head_impl', '&tel { a -> b }.', 'reject'), ('tel_head_eqv', '&tel { a <> b }.', 'reject'),
     ('tel_head_two_terms', '&tel { a, b }.', 'reject'), ('tel_head_prime_trail', "&tel { a' }.", 'reject'), ('tel_head_prime_lead', "&tel { 'a }.", 'reject'), ('tel_head_prime_nested', "&tel { b | > a' }.", 'reject'),
+    ('tel_head_atom_named_final', '&tel { > final }.', 'accept'), ('tel_head_atoms_named_like_keywords', '&tel { true | initial ;> false }.', 'accept'), ('tel_body_atoms_named_like_keywords', ':- not &tel { final & < true }.', 'accept'),
+    ('del_atoms_named_like_keywords', ':- not &del { true .>? final }.', 'accept'),
     ('future_head_cond_body', "p' :- r : q.", 'accept'), ('future_head_cond_body_vars', "p'(X) :- d(X), r(Y) : d(Y).", 'accept'), ('future_head_agg_body', "p' :- 1 <= #count { 1 : q ; 2 : r }.", 'accept'),
     ('neg_future_head_cond_body', "-p'' :- not r : q.", 'accept'), ('future_in_cond_of_rule', "s :- r : q'.", 'reject'), ('future_in_cond_of_constraint', ":- r : q'.", 'accept'),
     ('tel_cond_rule', 'r :- not &tel { a : q }.', 'accept'), ('tel_cond_rule_notnot', 'r :- not not &tel { > a : q, b }.', 'accept'), ('tel_cond_choice', '{ r } :- not &tel { a : q }.', 'accept'),
